@@ -1082,6 +1082,68 @@ pub fn run_c15(rep: &Report, cli: Option<&dyn Fn(&[String], &Report) -> u64>) ->
             }
         }
     }
+    // other spellings of a well-formed FEN. The loader may accept or refuse them; what it accepts must be
+    // the position the string states. (a) the castling letters in every order (every non-empty subset of
+    // KQkq, every permutation); (b) blanks: doubled, leading, trailing, tabs; (c) counters left out.
+    {
+        let base = Pos::from_fen("r3k2r/8/8/8/8/8/8/R3K2R w - - 0 1").unwrap();
+        let letters = [('K', rules::WK), ('Q', rules::WQ), ('k', rules::BK), ('q', rules::BQ)];
+        let mut spellings: Vec<(String, Pos, &'static str)> = Vec::new();
+        fn permute(items: &mut Vec<(char, u8)>, k: usize, out: &mut Vec<Vec<(char, u8)>>) {
+            if k == items.len() {
+                out.push(items.clone());
+                return;
+            }
+            for i in k..items.len() {
+                items.swap(k, i);
+                permute(items, k + 1, out);
+                items.swap(k, i);
+            }
+        }
+        for mask in 1..16u8 {
+            let mut subset: Vec<(char, u8)> = letters.iter().enumerate().filter(|(i, _)| mask & (1 << i) != 0).map(|(_, l)| *l).collect();
+            let mut perms = Vec::new();
+            permute(&mut subset, 0, &mut perms);
+            for perm in perms {
+                let field: String = perm.iter().map(|(c, _)| *c).collect();
+                let mut want = base;
+                want.rights = perm.iter().fold(0, |a, (_, r)| a | r);
+                for stm in [rules::WHITE, rules::BLACK] {
+                    want.stm = stm;
+                    spellings.push((format!("r3k2r/8/8/8/8/8/8/R3K2R {} {} - 0 1", if stm == rules::WHITE { "w" } else { "b" }, field), want, "castling-letters-in-another-order"));
+                }
+            }
+        }
+        for f in ["r3k2r/p1ppqpb1/bn2pnp1/3PN3/1p2P3/2N2Q1p/PPPBBPPP/R3K2R w KQkq - 0 1", "4k3/8/8/3pP3/8/8/8/4K3 w - d6 0 1", "8/2p5/3p4/KP5r/1R3p1k/8/4P1P1/8 b - - 12 40"] {
+            let want = Pos::from_fen(f).unwrap();
+            let t: Vec<&str> = f.split(' ').collect();
+            spellings.push((t.join("  "), want, "doubled-blanks"));
+            spellings.push((format!(" {}", f), want, "leading-blank"));
+            spellings.push((format!("{} ", f), want, "trailing-blank"));
+            spellings.push((t.join("\t"), want, "tabs"));
+            spellings.push((t[..4].join(" "), want, "no-counters"));
+            spellings.push((t[..5].join(" "), want, "no-move-number"));
+            spellings.push((format!("{}\n", f), want, "trailing-newline"));
+        }
+        let mut accepted_spellings = 0u64;
+        for (fen, want, what) in &spellings {
+            faithful.fetch_add(1, Ordering::Relaxed);
+            match catch_unwind(AssertUnwindSafe(|| BoardState::from_fen(fen).map_err(|e| e.to_string()))) {
+                Err(e) => rep.fail("C15", &format!("from_fen-panic/{}", what), format!("from_fen({:?}) panicked: {}", fen, panic_text(e)), J::obj().set("kind", J::s("c15")).set("input", J::s(fen))),
+                Ok(Err(_)) => {} // refusing an unusual spelling is allowed
+                Ok(Ok(b)) => {
+                    accepted_spellings += 1;
+                    if let Some(d) = diff_board(&b, want) {
+                        rep.fail("C15", &format!("loaded-position-differs/{}", what), format!("from_fen({:?}) is accepted but {}", fen, d), J::obj().set("kind", J::s("c15")).set("input", J::s(fen)));
+                    } else if b.zobrist_key != scratch_key(want, &h) {
+                        rep.fail("C15", &format!("loaded-hidden-fields/{}", what), format!("from_fen({:?}) is accepted but its key differs from the scratch key", fen), J::obj().set("kind", J::s("c15")).set("input", J::s(fen)));
+                    }
+                }
+            }
+        }
+        rep.add("unusual_spellings_of_well_formed_fens", spellings.len() as u64);
+        rep.add("unusual_spellings_accepted_and_compared", accepted_spellings);
+    }
     let rejected = rejected.into_inner().unwrap();
     let mut validated = 0;
     if let Some(cli) = cli {
